@@ -1335,10 +1335,21 @@ def translate_source(src, origin="deap/tools/emo.py"):
 
 
 TRAILER = """
+(* sortNondominated(individuals, k) as selNSGA2 calls it (first_front_only left at its default), through the bridge
+   of Model/C05_Full.v: the sorter sees (identity, weighted values), the result is read back as the population's
+   individuals with those identities.  The 'standard' back-end of the regenerated selNSGA2. *)
+Definition gen_std_sorter (o : numops) : sorter o :=
+  fun pop k =>
+    match gen_sortNondominated o (pop4 pop) k false (fun _ => None) with
+    | Some (fs, _) => Some (map (back pop) fs)
+    | None => None
+    end.
+
 (* correspondence entry point: the same cases as Corr.C05.check, run through the regenerated definitions.
    The attribute table starts as the harness observed it before the call (stale crowding_dist values) and must end
    as observed after it; the selection is compared in order.  Twice for a selNSGA2 call: over the fronts the
-   implementation's sorter returned during the call, and end to end over property C04's models of the sorters. *)
+   implementation's sorter returned during the call, and end to end over the regenerated sortNondominated
+   ('standard'; its fronts must be the recorded ones, order inside fronts included) / C04's model of the log-time sorter. *)
 From DV Require Import Base.Corr Corr.C05.
 Section GenRunner.
   Variable o : numops.
@@ -1356,11 +1367,16 @@ Section GenRunner.
                       list_eqb (option_eqb deq) (map t' (seq 0 (length p))) obs_cd
     | None => false
     end &&
-    match gen_selNSGA2 o (model_sorter o NdStandard) (model_sorter o NdLog) p (Z.of_nat k) (nd_of std) (tab_of init_cd) with
+    match gen_selNSGA2 o (gen_std_sorter o) (model_sorter o NdLog) p (Z.of_nat k) (nd_of std) (tab_of init_cd) with
     | Some (r, t') => (negb cmp_sel || list_eqb Nat.eqb (map uid r) obs_sel) &&
                       list_eqb (option_eqb deq) (map t' (seq 0 (length p))) obs_cd
     | None => false
-    end.
+    end &&
+    (negb std ||
+     match gen_std_sorter o p (Z.of_nat k) with
+     | Some fr => list_eqb (list_eqb Nat.eqb) (map uids fr) fu
+     | None => false
+     end).
 
   Definition gen_run_crowd (vals : list (list (V o))) (obs : list (D o)) : bool :=
     match gen_assignCrowdingDist o (mkpop (map (fun v => ([], v)) vals)) (fun _ => None) with
@@ -1379,7 +1395,7 @@ Definition check_gen (c : case) : bool :=
   | CFullQ nd k pop obs =>
       option_eqb (list_eqb Nat.eqb)
         (option_map (fun rt => map uid (fst rt))
-           (gen_selNSGA2 q_ops (model_sorter q_ops NdStandard) (model_sorter q_ops NdLog) (mkpop pop) (Z.of_nat k)
+           (gen_selNSGA2 q_ops (gen_std_sorter q_ops) (model_sorter q_ops NdLog) (mkpop pop) (Z.of_nat k)
                          (nd_of_nat nd) (fun _ => None))) obs
   end.
 Definition check_both (c : case) : bool := check c && check_gen c.
